@@ -190,6 +190,20 @@ func c08Space(x *mc.Exec) {
 	if !ok {
 		return
 	}
+	// the order in which the parser visits the parameters is the runtime's choice
+	if len(params) >= 2 {
+		ud, derr, dp, _ := ParseURL(x, schema, raw, true)
+		x.R.Add("transitions", 1)
+		if dp != "" || derr != nil || ud == nil {
+			x.Fail("C08:visit-order:rejected", "%q is accepted when its parameters are visited in sorted order and not in the order %v (%v %s)", raw, x.Choices(), derr, dp)
+			return
+		}
+		var sd string
+		if p := Try(func() { sd = ud.String() }); p != "" || sd != s1 {
+			x.Fail("C08:visit-order:string-differs", "%q: String() depends on the order in which the parser visits the parameters:\n  %q\n  %q (panic %q)", raw, s1, sd, p)
+			return
+		}
+	}
 	// order of differently named parameters, order inside fields/include lists, empty items
 	var variants []string
 	names := map[string]bool{}
@@ -335,7 +349,7 @@ func init() {
 		Rule: "Engine A, all choices Full: every URL of the C07 query space (16 paths x ordered sequences of 0..2, thorough 3, parameters from the ~100-instance menu) that the parser accepts; ids, page values, page keys, filter labels and filter strings containing each of 12 reserved-character samples (space & ? # % + / = , non-ASCII) at 6 positions; every and/or filter tree of depth <= 2 (thorough 3) and fan-out <= 2 with and without a collation on each operator node. Oracle: String() parses, the re-parsed URL has the same fragments, type, id, relationship, field selection, sorting rules, page map (collection URLs), filter label / canonical filter JSON, and its String() is the same text; String() itself changes nothing read from the URL and is repeatable; every permutation of differently named parameters, reversal of fields/include lists and insertion of empty items yields the same String(). Non-trivial = accepted URL",
 		Assumptions: []string{"'page parameters' = the whole Page map of a collection URL"},
 		Harnesses: []Harness{
-			{Name: "C08/space", Body: c08Space},
+			{Name: "C08/space", Body: c08Space, Dev: func() int { return 1 }},
 			{Name: "C08/reserved", Body: c08Reserved},
 			{Name: "C08/trees", Body: c08Trees},
 		},
